@@ -56,6 +56,10 @@ def _constant_cache_key(value: Any) -> Any:
     tagged so that it cannot equal the key of a sequence (``(0.0, 1.0) == (0, 1)``).
     """
     if isinstance(value, float):
+        if math.isnan(value):
+            # nan != nan: without a key of its own every nan literal would miss the cache
+            # and ask for a second initializer of the same name.
+            return ("float", "nan")
         return ("float", value, math.copysign(1.0, value))
     return value
 
